@@ -23,6 +23,7 @@ class Check(BaseCheck):
         extract.gen_fem()
         extract.gen_solver_aniso()
         extract.gen_curv_tria()
+        extract.gen_dispatch()
 
     def correspond(self, drv, stats):
         fails = []
